@@ -128,6 +128,27 @@ def stepsTags (st : Option Strat) : List String :=
     (if mixed then ["types:mixed"] else if keys.any (·.1) then ["types:percent"] else ["types:int"]) ++
     (if mixed && adjNonDecr keys && !pairNonDecr keys then ["nonadjacent-decrease"] else [])
 
+/-- tags naming the input regions of the six repaired defects -/
+def regionTags (version : String) (obj : Obj) (old : Option Obj) (store : List Stored) (isUpdate : Bool) : List String :=
+  (if version = "v1alpha1" && obj.ref.isNone && obj.canary.isSome then ["region:alpha-no-workloadRef"] else []) ++
+  (match old with
+    | some o => if isUpdate && o.canary.isNone && o.blueGreen.isNone then ["region:old-without-strategy"] else []
+    | none => if isUpdate then ["region:old-absent"] else []) ++
+  (match obj.canary with
+    | some c => if version = "v1alpha1" && c.steps.any (fun s => s.replicas.isSome && !weightOKA s)
+        then ["region:alpha-weight-out-of-range-with-replicas"] else []
+    | none => []) ++
+  (match old, obj.canary with
+    | some o, some c => (match o.canary with
+      | some oc => if isUpdate && oc.steps.length != c.steps.length then ["region:step-count-changed"] else []
+      | none => [])
+    | _, _ => []) ++
+  (match obj.ref with
+    | some r => if store.any (fun st => st.ns = obj.ns && st.name != obj.name &&
+          (match st.ref with | some rr => sameWorkload rr r && rr != r | none => false))
+        then ["region:same-workload-other-apiVersion"] else []
+    | none => [])
+
 def handle : Handler := fun op inp impl => do
   match op with
   | "raw" =>
@@ -149,7 +170,7 @@ def handle : Handler := fun op inp impl => do
     let prog := progressing store obj.ns obj.name
     let baseTags := [version, "op:" ++ opS, decisionTag impl] ++
       (if o = .update then [if prog then "phase:immutable" else "phase:mutable"] else []) ++
-      (if o = .other then ["trivial"] else [])
+      (if o = .other then ["trivial"] else []) ++ regionTags version obj old store (o = .update)
     if version = "v1alpha1" then
       let a := obj.toA
       let oa := old.map Obj.toA
